@@ -10,7 +10,7 @@ import (
 )
 
 func c08StubAuthKeyNat(sk string, ts int64) string { return zzverif.UF("authkey", 8, sk, ts) }
-func c08StubGenSid(c *Controller) string            { return "sid-1" }
+func c08StubGenSid(c *Controller) string           { return "sid-1" }
 
 type c08Transporter struct {
 	name string
